@@ -12,6 +12,7 @@ for d in $V/selftest/mutants/$pat/ $V/seeded/$pat/; do
   name=$(basename $d)
   prop=$(python3 -c "import json;print(json.load(open('$d/meta.json'))['property'])")
   expect=$(python3 -c "import json;print(json.load(open('$d/meta.json')).get('expect','violation'))")
+  if [ "$expect" = superseded ]; then echo "SELFTEST $name: superseded (see meta.json)"; ok=$((ok+1)); continue; fi
   scratch=$(mktemp -d ${TMPDIR:-/tmp}/govc-st-$$-XXXXXX)
   rsync -a --exclude .git $REPO/ $scratch/
   if ! (cd $scratch && patch -p1 -s < $d/patch.diff); then echo "SELFTEST $name: patch does not apply"; bad=$((bad+1)); rm -rf $scratch; continue; fi
